@@ -344,8 +344,10 @@ def proof_stage(chk, coq_dirs, build_dir, qflags, requires, theorems, obligation
     """The common proof stage. gen_steps: list of (cmdline) translators to run first.
     coq_dirs: dirs (in dependency order) to `make`; build_dir: where Props live.
     pins: {theorem: regex that the printed statement must match} (statement pinning)."""
-    trusted = ["Coq 8.16.1 kernel + vm_compute (no native_compute)",
-               "tools/vlib.py, tools/check (this driver)"]
+    trusted = ["Coq 8.16.1 kernel + vm_compute (no native_compute); no axioms declared (hygiene grep every run)",
+               "tools/vlib.py, tools/check (this driver)",
+               "extraction: Coq Extraction with ExtrOcamlBasic only (no Extract Constant/Inductive of our own; N/Z/positive/nat stay inductive), OCaml 4.13.1, ocaml/*_driver.ml; cross-checked against vm_compute samples",
+               "Rust harness (harness/), rustc/cargo, the hand-written model's fidelity as far as the correspondence run exercises it"]
     for cmd in gen_steps:
         rc, out = sh(cmd, timeout=300)
         trusted.append("translator: " + cmd.split()[1] if len(cmd.split()) > 1 else cmd)
